@@ -55,6 +55,7 @@ func scaleRec(kind string, asked string, s yScale) Rec {
 
 func init() {
 	register("c13", Def{
+		Debug:      true,
 		Rule:       "every scale printed by `info key list`, the set of listed keys, and `info key describe --key K` for all 42 spellings [A-G][#b]?m?; a record is one (command, key) observation, all distinct",
 		Exhaustive: true,
 		Gen: func(c *Ctx) []Case {
